@@ -58,7 +58,9 @@ var c20Pairs = []lintPair{
 	{"e_subject_surname_max_length", "w_subject_surname_recommended_max_length", relImplies, "any", 10},
 }
 
-func isFinding(st lint.LintStatus) bool { return st == lint.Notice || st == lint.Warn || st == lint.Error }
+func isFinding(st lint.LintStatus) bool {
+	return st == lint.Notice || st == lint.Warn || st == lint.Error
+}
 
 // c20Judge evaluates every pair whose precondition group holds for this certificate.
 func c20Judge(c *mon.Ctx, o *mon.Obj, groups map[string]bool, how string) {
@@ -153,8 +155,8 @@ var c20AIAHosts = []string{"http://ocsp.example.com", "http://ca.example.com/ca.
 func init() {
 	var nSeeds int
 	mon.Register(&mon.Check{
-		ID:   "C20",
-		Rule: "evaluations = certificates linted; for each of the 23 lint pairs of the property (5 RFC/BR DNS-label pairs on certificates with an empty common name, Mozilla/BR DSA, BR/S-MIME AIA, 9 SAN/IAN pairs with the IAN payload equal to the SAN payload, 3 subject/issuer pairs with issuer DN bytes equal to subject DN bytes, multiple-RDN finding<=>finding, 398=>397 days, given-name / surname max=>recommended) the relation is evaluated whenever both members were judged (neither NA nor NE) in one result set. Each pair has a minimum both-judged count; below it the run fails its observation gate. distinct_nontrivial = certificates on which pairs were evaluated.",
+		ID:          "C20",
+		Rule:        "evaluations = certificates linted; for each of the 23 lint pairs of the property (5 RFC/BR DNS-label pairs on certificates with an empty common name, Mozilla/BR DSA, BR/S-MIME AIA, 9 SAN/IAN pairs with the IAN payload equal to the SAN payload, 3 subject/issuer pairs with issuer DN bytes equal to subject DN bytes, multiple-RDN finding<=>finding, 398=>397 days, given-name / surname max=>recommended) the relation is evaluated whenever both members were judged (neither NA nor NE) in one result set. Each pair has a minimum both-judged count; below it the run fails its observation gate. distinct_nontrivial = certificates on which pairs were evaluated.",
 		Assumptions: []string{"'same content' is established by construction (IAN := SAN bytes, issuer := subject bytes, empty common name); pairs are not compared otherwise"},
 		Setup: func(c *mon.Ctx) error {
 			if err := setupCommon(c); err != nil {
